@@ -18,12 +18,16 @@ UNITS = {
     'BUILDER': dict(template='builder.rs', rlimit=30),
     'SASLNEG': dict(template='saslneg.rs', rlimit=30),
     'SASLMECH': dict(template='saslmech.rs', rlimit=40),
-    'READERS': dict(template='readers.rs', rlimit=40),
+    'READERS': dict(template='readers.rs', rlimit=60),
+    'SERSTR': dict(template='serstr.rs', rlimit=40),
+    'BYTEREADER': dict(template='bytereader.rs', rlimit=60),
 }
+
+VARW = 'PROVED for every value (units SERSTR + READERS): strings, symbols and binaries of ANY length and content, outside and inside arrays -- the serializer writes a valid str8/str32, sym8/sym32, vbin8/vbin32 encoding whose size field counts octets ([C05.*.encoding], [C05.*.array-element]); the decoder reads both width variants by the AMQP layout and accepts every one of them from a reliable reader ([C05.*.decoding], [C05.*.every-variant-accepted]); lemma_var_round_trip joins the two: decode(encode(x) ++ rest) == x, consuming exactly the encoding; serialized_size agrees with the octets written ([C20.size.*]); compound headers are decoded to the body length and count the layout defines ([C05.compound.header-decoding])'
 
 COMMON_TRUSTED = [
     'Verus 0.2026.09.13 + Z3 (verifier), rustc front end',
-    'extractor /verif/vlib (token-level rewrite rules R1-R27, logged per function in this file)',
+    'extractor /verif/vlib (token-level rewrite rules R1-R29, logged per function in this file)',
     'vstd specifications of Vec, VecDeque, Option, Result, integer wrapping_*/saturating_*/checked_*',
 ]
 
@@ -69,25 +73,27 @@ PROPS = {
             'DeliveryFut::poll (Pin/poll) and interleaving of dispositions with further sends are not decided',
             'that UnsettledMessage::settle_with_state is actually invoked on the entry removed by LinkRelay::on_incoming_disposition is visible in the extracted text but is not an obligation: a by-value call leaves no ghost trace; what IS proved: the entry removed is the one under the disposition\'s tag, and settle_with_state resolves its own channel with exactly the state given']),
     'C03': dict(
-        units=['SERHDR'], kani=K_RT, level='proof', title='Codec round trip (primitives + compound headers)',
-        assumptions=[
+        units=['SERHDR', 'SERSTR', 'READERS'], kani=K_RT, level='proof', title='Codec round trip (fixed- and variable-width primitives, compound headers)',
+        lemmas={'READERS': ['lemma_var_round_trip', 'lemma_be32_inverse']},
+        assumptions=[VARW,
             'PROVED for every value: the fixed-width primitives listed in the obligations (Kani harnesses, loop-free / fully unwound over the full domain) and the compound header writers (Verus)',
             'BOUNDED ONLY (listed under bounded_obligations, never counted as proved): decoders on short byte strings, compound headers with hostile size/count bytes',
-            'NOT DECIDED: strings/symbols/binaries of arbitrary length and Unicode content, arbitrary nesting of lists/maps/arrays/described values, the derive-macro output for the typed protocol items (performatives, SASL bodies, delivery states, messages) -- serde visitor code is outside the Verus subset and too large for CBMC beyond small bounds',
+            'NOT DECIDED: arbitrary nesting of lists/maps/arrays/described values (the element loop of the serde visitor chain), the derive-macro output for the typed protocol items (performatives, SASL bodies, delivery states, messages) -- serde visitor code is outside the Verus subset and too large for CBMC beyond small bounds',
             'compound header writers: the call-site fact count <= byte length (every element occupies at least one byte in this implementation) is assumed; the serde SerializeSeq/Map impls that call them are not under contract']),
     'C05': dict(
-        units=['SERHDR', 'READERS'], kani=K_RT + K_DEC, level='proof', title='Valid encodings / every variant accepted (primitives + compound headers)',
-        assumptions=[
+        units=['SERHDR', 'SERSTR', 'READERS'], kani=K_RT + K_DEC, level='proof', title='Valid encodings / every variant accepted (fixed- and variable-width primitives, compound headers)',
+        lemmas={'READERS': ['lemma_var_round_trip', 'lemma_be32_inverse']},
+        assumptions=[VARW,
             'PROVED for every value: the fixed-width primitives listed in the obligations (Kani harnesses, loop-free / fully unwound over the full domain) and the compound header writers (Verus)',
             'BOUNDED ONLY (listed under bounded_obligations, never counted as proved): decoders on short byte strings, compound headers with hostile size/count bytes',
-            'NOT DECIDED: strings/symbols/binaries of arbitrary length and Unicode content, arbitrary nesting of lists/maps/arrays/described values, the derive-macro output for the typed protocol items (performatives, SASL bodies, delivery states, messages) -- serde visitor code is outside the Verus subset and too large for CBMC beyond small bounds',
+            'NOT DECIDED: arbitrary nesting of lists/maps/arrays/described values (the element loop of the serde visitor chain), the derive-macro output for the typed protocol items (performatives, SASL bodies, delivery states, messages) -- serde visitor code is outside the Verus subset and too large for CBMC beyond small bounds',
             'compound header writers: the call-site fact count <= byte length (every element occupies at least one byte in this implementation) is assumed; the serde SerializeSeq/Map impls that call them are not under contract']),
     'C20': dict(
-        units=['FRAMEDEC', 'READERS'], kani=K_RT + K_READER, level='proof', title='Codec entry points agree (primitives; frame payload)',
+        units=['FRAMEDEC', 'READERS', 'SERSTR'], kani=K_RT + K_READER, level='proof', title='Codec entry points agree (primitives; frame payload)',
         assumptions=[
             'PROVED for every value: the fixed-width primitives listed in the obligations (Kani harnesses, loop-free / fully unwound over the full domain) and the compound header writers (Verus)',
             'BOUNDED ONLY (listed under bounded_obligations, never counted as proved): decoders on short byte strings, compound headers with hostile size/count bytes',
-            'NOT DECIDED: strings/symbols/binaries of arbitrary length and Unicode content, arbitrary nesting of lists/maps/arrays/described values, the derive-macro output for the typed protocol items (performatives, SASL bodies, delivery states, messages) -- serde visitor code is outside the Verus subset and too large for CBMC beyond small bounds',
+            'NOT DECIDED: arbitrary nesting of lists/maps/arrays/described values (the element loop of the serde visitor chain), the derive-macro output for the typed protocol items (performatives, SASL bodies, delivery states, messages) -- serde visitor code is outside the Verus subset and too large for CBMC beyond small bounds',
             'compound header writers: the call-site fact count <= byte length (every element occupies at least one byte in this implementation) is assumed; the serde SerializeSeq/Map impls that call them are not under contract'] + ['to_value/from_value vs bytes is not covered yet',
             'PROVED for every input (unit READERS): SliceReader and IoReader satisfy ONE Read contract (peek/peek_bytes consume nothing, next/read_exact/read_bytes consume exactly what they return, in order), so decoding from a slice and from a stream see the same bytes and leave the same bytes behind; the LazyValue/byte_buf scanner takes exactly one encoded value (length by the AMQP constructor rule) -- the decoders built on top (de.rs) are not under contract']),
     'C04': dict(
@@ -152,11 +158,11 @@ PROPS = {
             'DECIDED: channel-max; the VALUES the timers are armed with (heartbeat period from the peer\'s idle-time-out, 0/unset => none; local deadline = configured idle-time-out, advertised value = half of it); one empty frame per heartbeat tick; none after the local Close. NOT DECIDED: the timed behaviour itself (tokio Interval/Sleep, deadline reset on every received frame in Transport::poll_next): no clock in either verifier',
             'slab::Slab modelled as a partial map whose vacant key is unoccupied']),
     'C10': dict(
-        units=['REASM', 'LINK'], kani=[], level='proof', title='Reassembly',
-        lemmas={'REASM': ['lemma_concat_push', 'lemma_concat_one']},
+        units=['REASM', 'LINK', 'BYTEREADER'], kani=[], level='proof', title='Reassembly',
+        lemmas={'REASM': ['lemma_concat_push', 'lemma_concat_one'], 'BYTEREADER': ['lemma_after_take', 'lemma_flat_drained']},
         assumptions=[ASYNC,
             'a multi-frame delivery buffers fewer than 2^32 bytes (otherwise the u32 section counter of IncompleteTransfer::append could overflow)',
-            'count_number_of_sections_and_offset and the chained-buffer byte reader (util::IntoReader for Vec<Payload>) are iterator/adapter code outside the Verus subset: assumed contracts',
+            'the chained-buffer byte reader behind multi-frame decoding (util::ByteReader<Payload> as io::Read) is under contract in unit BYTEREADER: a read yields the concatenation of the frames\' payloads wherever they were cut; count_number_of_sections_and_offset is iterator/adapter code outside the Verus subset: assumed contract',
             'the link endpoint (ReceiverLink::on_complete_transfer: credit, decode) is a stand-in that decodes exactly the bytes it is given',
             'resumption (transfer.state = Received{..}, transfer.resume) may trim the buffer and is outside these contracts',
             'interleaving with other links of the session is the routing contract of unit SESSION (C11.route.transfer)']),
